@@ -30,4 +30,11 @@ PROPS = {
         "replay": "arith_float",
         "level": "proof",
     },
+    "C04": {
+        "title": "Arithmetic comparison is exact and self-consistent",
+        "v_units": ["numcmp"], "s_checks": ["cmp_instrs"],
+        "k_groups": [],
+        "replay": "arith_cmp",
+        "level": "proof",
+    },
 }
